@@ -503,10 +503,24 @@ def finishAll (st : LoopState) : Chain :=
     let rows := keys.map (fun k => ag.cols.map (fun c => ((lookupAcc c.stats k).map Acc.final).getD Val.none))
     (st.chain.feed rows).finish
 
+/-- `fields_info` of a TableIterator after it delivered the records `t`: (num_fields, NR) in first-seen order -/
+def fieldsInfoOf : Table → Nat → List (Nat × Nat) → List (Nat × Nat)
+  | [], _, info => info
+  | r :: rest, nr, info =>
+    fieldsInfoOf rest (nr + 1) (if info.any (fun e => e.1 == r.length) then info else info ++ [(r.length, nr + 1)])
+
+/-- the 'Number of fields … is not consistent' warning: the first record of each of the first two lengths -/
+def fieldsWarning (t : Table) : Option (Nat × Nat × Nat × Nat) :=
+  match fieldsInfoOf t 0 [] with
+  | (nf1, nr1) :: (nf2, nr2) :: _ => some (nf1, nr1, nf2, nr2)
+  | _ => none
+
 structure RunResult where
   sink : Sink
   error : Option EngErr
   pulled : Nat
+  warnA : Option (Nat × Nat × Nat × Nat) := none    -- input-table field-count warning (over the records pulled)
+  warnB : Option (Nat × Nat × Nat × Nat) := none    -- join-table field-count warning
 
 /-- `rbql.query` on list tables: build the join map, run the loop, finish the writers -/
 def run (q : SemQuery) (A B : Table) (sink : Sink := {}) : RunResult :=
@@ -522,7 +536,9 @@ def run (q : SemQuery) (A B : Table) (sink : Sink := {}) : RunResult :=
   | .ok jm =>
     match mainLoop q jm A 0 { chain := buildChain q sink } with
     | .error (e, st, n) => { sink := st.chain.getSink, error := some e, pulled := n }
-    | .ok (st, n) => { sink := (finishAll st).getSink, error := none, pulled := n }
+    | .ok (st, n) =>
+      { sink := (finishAll st).getSink, error := none, pulled := n,
+        warnA := fieldsWarning (A.take n), warnB := if q.join.isSome then fieldsWarning B else none }
 
 def RunResult.rows (r : RunResult) : List Row := r.sink.rows.reverse
 
